@@ -421,6 +421,10 @@ fn sweep_raw(bytes: &[u8], queries: &[(u16, u16)], z: &mut ZTable) -> Result<Dum
         let f = rd.find_item(t, id);
         let cnt = rd.item_type_items(t).count();
         assert!(cnt == rg.end - rg.start, "item_type_items({}) yields {} items for range {:?}", t, cnt, rg);
+        // find_item returns the first item of that type with that id, in whatever order the ids are stored
+        let scan = rd.item_type_items(t).find(|it| it.id == id).map(|it| (it.id, it.data.as_ptr() as usize, it.data.len()));
+        let got = f.as_ref().map(|it| (it.id, it.data.as_ptr() as usize, it.data.len()));
+        assert!(scan == got, "find_item({}, {}) = {:?} but scanning the items of that type finds {:?}", t, id, got.map(|x| (x.0, x.2)), scan.map(|x| (x.0, x.2)));
         let ft = match f {
             None => "none".to_string(),
             Some(it) => {
